@@ -21,7 +21,7 @@ from . import common
 
 ID = 'C06'
 LEVEL = 'exploration'
-RUNS = {'quick': 8000, 'thorough': 200000}
+RUNS = {'quick': 14000, 'thorough': 200000}
 SIM_TIME_UNIT = 'samples / dense time units'
 RULE = ('seeded generation of (specification, i/o assignment in {input, output, undeclared}^K, semantics, monitor kind, data, '
         'stepping/chunking); non-trivial = the expected result differs from the standard robustness somewhere (an insensitive '
@@ -64,7 +64,7 @@ def gen(rng, tier):
     sem = rng.choice(SEMS)
     pastify = mode == 'on' and (any(x[0] in sg.FUTURE_OPS for x in sg.walk(ast)) or rng.random() < 0.1)
     modular = None
-    if rng.random() < 0.2:
+    if rng.random() < 0.3:
         # directed: an arithmetic sub-specification shared by several predicates (the i/o sets of a shared node must not
         # be polluted by one of its users)
         def term(d):
